@@ -35,6 +35,12 @@ CLAIMED = {
         "note": "Situations the documentation leaves open are skipped and counted in evidence (an object of the new name already exists, several objects match case-insensitively, duplicate_object with a case-variant source, two default keys on one field). For name prefixing, enum member names and hint payloads are not judged. Transformation trail strings are ignored on targeted objects and must be unchanged elsewhere.",
         "design_ref": "DESIGN.md §5 C15",
     },
+    "C17": {
+        "technique": "deterministic simulation: seeded histories of builder/option rules (veneer files loaded by the real VeneersLoader, applied by the real Rewriter.ApplyTo under seeded map-order schedules) with invariants after every rule: path and argument well-typedness against the schemas, frame on unselected builders/options (which is where aliasing between sequential rules shows), rule contracts; history shrinking and replay",
+        "text": "Invariant checking over sampled rule histories starting from builders derived by the real generator; selectors are modelled from their documented matching rules. Sampled, not enumerated.",
+        "note": "Paths composed through a TypeHint over `any` are checked for existence only. Default values are ignored when comparing path/argument types. merge_into whose source does not build the type under under_path is keyed as misconfigured and listed as a known finding, as is struct_fields_as_* after disjunction_as_options. Builders without options are outside the frame (the rewriter dismisses them whatever the rule).",
+        "design_ref": "DESIGN.md §5 C17",
+    },
     "C18": {
         "technique": "deterministic simulation: a monitor on every DeepCopy event of simulated pipeline runs (copy seam inserted by the instrumenter) plus node-by-node copying of fixture and generated IR graphs; reflective equality and disjointness-of-mutable-locations oracles; replay",
         "text": "Every outermost DeepCopy call of real pipeline runs (with builders, veneers, converters) and every DeepCopy method reachable in 47 fixture graphs and in generated contexts is judged: copy equals receiver field by field; no slice array, map or pointer target is reachable from both through declared fields.",
